@@ -56,6 +56,9 @@ def run_one(m, seed, with_tests, workers):
         if with_tests:
             t = subprocess.run(["/venv/bin/python", "-m", "pytest", "-q", "-p", "no:cacheprovider",
                                 "--timeout=900", "--continue-on-collection-errors", "-x", "-q",
+                                # concurrent pytest sessions of one user clean up each other's
+                                # /tmp/pytest-of-<user> directories: keep this one's to itself
+                                "--basetemp=" + scratch + "/pytest-tmp",
                                 "--deselect", "ceos_alos2/tests/test_xarray.py::test_to_dataset",
                                 "--deselect", "ceos_alos2/tests/test_xarray.py::test_to_datatree",
                                 "--deselect",
